@@ -662,7 +662,8 @@ def camel_from_upper(name):
 
 
 ACCESSOR_SUFFIXES = ('::write', '::read', '::lock', '::entry', '::get_mut', '::get', '::iter', '::iter_mut', '::as_mut', '::as_ref',
-                     '::borrow_mut', '::borrow', '::unwrap', '::expect', '::value', '::value_mut', '::blocking_write', '::blocking_read', '::next', '::into_iter')
+                     '::borrow_mut', '::borrow', '::unwrap', '::expect', '::value', '::value_mut', '::blocking_write', '::blocking_read', '::next', '::into_iter',
+                     '::as_deref', '::as_deref_mut', '::as_slice', '::as_mut_slice', '::deref', '::deref_mut')
 
 
 def receiver_root(B, op, max_hops=12):
